@@ -237,6 +237,9 @@ func Normalize(dir, goarch string, tags []string) (map[string][]byte, []string) 
 			changed = n.zeroDeclRound()
 		}
 		if !changed {
+			changed = n.unwrapRound()
+		}
+		if !changed {
 			changed = n.paramSplitRound()
 		}
 		if !changed {
